@@ -21,6 +21,6 @@ class Stmda(Opcode):
                         processor.mem_a_set(address, 4, processor.registers.get(i))
                     address = address + 4
             if bit_at(self.registers, 15):
-                processor.mem_a_set(address, 4, processor.registers.pc_store_value())
+                processor.mem_a_set(address, 4, processor.registers.get_pc())
             if self.wback:
                 processor.registers.set(self.n, sub(processor.registers.get(self.n), 4 * register_count, 32))
